@@ -18,6 +18,9 @@ package satellite
 //@ let n = len(Satellites)
 //@ ensures r1 == nil ==> len(r0) == n && fresh(r0) && startOfSatelliteData + 36*n <= 8*len(bitStream)
 //@ ensures r1 != nil ==> len(r0) == 0
+// the cells handed out belong to this result alone: a later decode cannot reach into them (the signal cells
+// of a message point at its satellite cells, and ranges are computed through those pointers)
+//@ ensures[C08] r1 == nil ==> fresh(r0)
 //@ ensures[C04] (r1 == nil) == (startOfSatelliteData + 36*n <= 8*len(bitStream))
 //@ ensures[C04] r1 == nil ==> forall(k, 0, n, r0[k].ID == Satellites[k] && r0[k].RangeWholeMillis == bits(bitStream, startOfSatelliteData + 8*k, 8) && r0[k].ExtendedInfo == bits(bitStream, startOfSatelliteData + 8*n + 4*k, 4) && r0[k].RangeFractionalMillis == bits(bitStream, startOfSatelliteData + 12*n + 10*k, 10) && r0[k].PhaseRangeRate == sbits(bitStream, startOfSatelliteData + 22*n + 14*k, 14) && r0[k].LogLevel == logLevel)
 //@ loop 1
